@@ -229,6 +229,7 @@ class CallMixin:
         self.event("call", node, callee=label, args=list(args), kwargs=dict(kwargs), fv=fv, bound=bound)
         for k, v in bound.items():
             state.vars[(fr.fid, k)] = v
+        pc_at_call = state.pc
         self.stack.append(fr)
         self.call_nodes.append(node)
         saved_ctl, self.ctl = self.ctl, []
@@ -267,6 +268,7 @@ class CallMixin:
         if fr.fid not in escaped and not getattr(self, "keep_frames", False):
             for k in [k for k in out_state.vars if k[0] == fr.fid]:
                 del out_state.vars[k]
+        out_state.pc = pc_at_call  # the callee's internal control dependences end with the call
         state.assign_from(out_state)
         if self.opaque_funcs and isinstance(rv, Num) and fi is not None and fi.fq in self.opaque_funcs:
             # uninterpreted-function view of the callee (value numbering only): f(args) as an atom
